@@ -132,7 +132,15 @@ def generate():
     # housekeep: the announcement-interval slice
     m = re.search(r"^( *)let min_peer_timeout = .*?self\.next_peers = now \+ [^;]*;", cloud, re.M | re.S)
     sl = need(m.group(0) if m else None, "announcement interval slice in GenericCloud::housekeep", "let interval = 0u16; self.next_peers = now;")
-    out += ("\npub struct XPeer {\n    pub peer_timeout: u16,\n}\npub struct XCloud {\n    pub peers: smallvec::ivec::IVec<(u8, XPeer), 4>,\n"
+    # numeric fields of PeerData, with the types the source declares
+    pd = extract_item(cloud, r"^(?:pub )?struct PeerData\s*")
+    fields = []
+    for fname in ("last_seen", "timeout", "peer_timeout"):
+        fm = re.search(r"\b%s: (\w+)," % fname, pd or "")
+        if not fm:
+            problems.append("field %s of PeerData not found in src/cloud.rs" % fname)
+        fields.append("    pub %s: %s," % (fname, fm.group(1) if fm else "u16"))
+    out += ("\npub struct XPeer {\n" + "\n".join(fields) + "\n}\npub struct XCloud {\n    pub peers: crate::vstd::collections::HashMap<u8, XPeer>,\n"
             "    pub update_freq: UpdateFreq,\n    pub next_peers: Time,\n}\nimpl XCloud {\n    pub fn announce_interval_slice(&mut self, now: Time) {\n"
             + sl + "\n    }\n}\n")
     # reconnect_to_peers: the back-off step
